@@ -13,53 +13,76 @@ from sa.report import Ctx
 from .common import generic_sweeps
 
 EXPLANATION = (
-    "Decides the few clauses of the min-cost-flow contract whose truth is in the shape of the code: (O1) min_cost_flow "
-    "- the residual expression agrees between the Bellman-Ford search and the bottleneck loop, the bottleneck starts "
-    "at demand - routed (never overshoots), the loop test is routed < demand; (O2) every flow increment on a cell is "
-    "paired in its block with the cost increment for that cell and amount; (O3) verdict guards - min_cost_flow says "
-    "INFEASIBLE only under 'no path', network_simplex only under unbalanced supplies / no arcs with non-zero supply / "
-    "an artificial arc still carrying flow, its cost sums over original arcs only; (O4) solve_assignment wiring - unit "
-    "capacities, demand min(n, m), status and objective forwarded unchanged; (O5) storage discipline for parallel and "
-    "anti-parallel arcs - network_simplex pools parallel arcs in its result dictionary; min_cost_flow's cost of an arc "
-    "and the residual cost of the opposite arc must not share a cell, and pooled capacity must not take the minimum "
-    "cost. NOT decided (the bulk of the property, out of static reach): minimality, agreement of the two solvers, "
-    "consistency of the spanning-tree update (parent/pred/thread/depth/pi), termination of the pointer walks."
+    "Decides the clauses of the min-cost-flow contract whose truth is in the shape of the code: (O1) min_cost_flow - "
+    "every input arc creates a forward residual edge and, adjacent to it, a backward partner (capacity 0, negated cost), "
+    "both registered in the adjacency; the Bellman-Ford search relaxes every residual edge with capacity left on strict "
+    "improvement, storing distance and parent edge together; the bottleneck starts at demand - routed and the loop test "
+    "is routed < demand; (O2) augmentation moves the amount from each path edge to its partner and pays that edge's own "
+    "cost for it, in one block; (O3) verdict guards - min_cost_flow says INFEASIBLE only under 'no path', "
+    "network_simplex only under unbalanced supplies / no arcs with non-zero supply / an artificial arc still carrying "
+    "flow; its cost sums over original arcs only and its big-M is built from absolute costs; (O4) solve_assignment "
+    "wiring - unit capacities, demand min(n, m), status and objective forwarded unchanged; (O5) storage discipline - "
+    "capacities and costs are kept per arc (never per ordered node pair), parallel arcs are pooled only in the returned "
+    "dictionaries, by accumulation; (O6) network-simplex tree update - the subtree cut off by the leaving arc is "
+    "re-rooted at the entering arc's endpoint (stem reversed), every tree change is followed by a refresh of depths "
+    "and potentials, tree arcs stay basic whatever their flow. NOT decided: minimality, agreement of the two solvers, "
+    "anti-cycling / termination of the pivot loop (bounded by max_iter only)."
 )
 
 
 def run(ctx: Ctx):
     f = ctx.func("flow", "min_cost_flow")
     bf = ctx.func("flow", "min_cost_flow.bellman_ford")
-    # O1
-    r1 = [n for n in own_nodes(bf.node) if isinstance(n, ast.Assign) and ast.unparse(n.targets[0]) == "residual"]
-    r2 = [n for n in own_nodes(f.node) if isinstance(n, ast.Assign) and ast.unparse(n.targets[0]) == "residual"]
-    ctx.require(len(r1) == 1 and len(r2) == 1, "residual computations of min_cost_flow not found")
-    want = canon(ast.parse("capacity[u][v] - flow[u][v] + flow[v][u]", mode="eval").body)
-    ctx.ob("C09-O1", "R18 SIBLING-AGREEMENT (expression)", f, "residual = capacity - flow + reverse flow in search and bottleneck", canon(r1[0].value) == canon(r2[0].value) == want, f"{ast.unparse(r1[0].value)} / {ast.unparse(r2[0].value)}", node=r2[0])
+    cfg = cfg_of(f.node)
+    t_mcf = ast.unparse(f.node)
+    # O1 residual graph: one forward and one backward edge per input arc, adjacent indices (e, e ^ 1)
+    loops = [n for n in own_nodes(f.node) if isinstance(n, ast.For) and isinstance(n.iter, ast.Subscript) and ast.unparse(n.iter.value) == "graph"]
+    ctx.require(len(loops) == 1, "arc loop of min_cost_flow not found")
+    body = [ast.unparse(x) for x in loops[0].body]
+    fwd = ["adj[u].append(len(edge_to))", "edge_from.append(u)", "edge_to.append(v)", "edge_cap.append(cap)", "edge_cost.append(c)"]
+    bwd = ["adj[v].append(len(edge_to))", "edge_from.append(v)", "edge_to.append(u)", "edge_cap.append(0)", "edge_cost.append(-c)"]
+    def in_order(seq, start=0):
+        i = start
+        for x in seq:
+            if x not in body[i:]:
+                return -1
+            i = body.index(x, i) + 1
+        return i
+    e1 = in_order(fwd)
+    e2 = in_order(bwd, e1) if e1 > 0 else -1
+    uncond = all(isinstance(x, (ast.Expr,)) for x in loops[0].body if "append" in ast.unparse(x))
+    ctx.ob("C09-O1", "R18 SIBLING-AGREEMENT (policy)", f, "every input arc creates a forward residual edge (its own capacity and cost), registered at its tail", e1 > 0 and uncond, "", node=loops[0])
+    ctx.ob("C09-O1", "R18 SIBLING-AGREEMENT (policy)", f, "...and, right after it, a backward partner with capacity 0 and the negated cost, registered at the head (partners are e and e ^ 1)", e2 > 0 and uncond, "without the backward edge flow can never be re-routed: the cheapest combination of paths is missed", node=loops[0])
+    # Bellman-Ford relaxes every residual edge with positive capacity, strictly, from reached nodes only
+    rel = [n for n in own_nodes(bf.node) if isinstance(n, ast.If) and "edge_cost" in ast.unparse(n.test)]
+    ok = len(rel) == 1 and canon(rel[0].test) == canon(ast.parse("edge_cap[e] > 0 and dist[u] + edge_cost[e] < dist[v]", mode="eval").body)
+    inner = [n for n in own_nodes(bf.node) if isinstance(n, ast.For) and ast.unparse(n.iter).startswith("adj[")]
+    ok = ok and len(inner) == 1 and ast.unparse(inner[0].iter) == "adj[u]" and ast.unparse(inner[0].target) == "e" and "v = edge_to[e]" in ast.unparse(inner[0])
+    bcfg = cfg_of(bf.node)
+    if ok:
+        at = GuardView(bcfg).guard_atoms(bcfg.node_of(rel[0].body[0]), stable_only=False)
+        ok = not any("e %" in a or "% 2" in a for a in at)
+    ctx.ob("C09-O1", "R21 search discipline", bf, "the path search relaxes every residual edge (forward and backward) of a reached node that has capacity left, on strict improvement", ok, "", node=bf.node)
+    ok = any(ast.unparse(x) == "dist[v] = dist[u] + edge_cost[e]" for x in rel[0].body) and any(ast.unparse(x) == "parent_edge[v] = e" for x in rel[0].body) if rel else False
+    ctx.ob("C09-O1", "R21 search discipline", bf, "distance and parent edge are stored together", ok, "", node=bf.node)
+    bt = ast.unparse(bf.node)
+    ctx.ob("C09-O1", "R20 ROUND-COUNT", bf, "n-1 relaxation rounds over all nodes; unreachable sink -> no path", "for _ in range(len(nodes) - 1)" in bt and "for u in nodes" in bt and "dist[sink] == float('inf')" in bt, "", node=bf.node)
+    ctx.ob("C09-O1", "R22 STUTTER-FREE", bf, "the path is rebuilt by following parent edges back to the source through the edge's own tail, with a length bound", "e = parent_edge[node]" in bt and "node = edge_from[e]" in bt and "while node != source" in bt and "len(path) > len(nodes)" in bt, "", node=bf.node)
     w = [n for n in own_nodes(f.node) if isinstance(n, ast.While)]
     ctx.require(len(w) == 1, "main loop of min_cost_flow not found")
     w = w[0]
     ctx.ob("C09-O1", "R2 loop test", f, "main loop runs while routed flow < demand", ast.unparse(w.test) == "total_flow < demand", ast.unparse(w.test), node=w)
-    init = [s for s in w.body if isinstance(s, ast.Assign) and ast.unparse(s.targets[0]) == "path_flow"]
-    ctx.ob("C09-O1", "R30 ACCUMULATOR-PAIRING", f, "bottleneck starts at the missing amount (never overshoots the demand)", len(init) == 1 and ast.unparse(init[0].value) == "demand - total_flow", "", node=w)
-    bt = ast.unparse(bf.node)
-    ctx.ob("C09-O1", "R21 search discipline", bf, "relaxation uses only arcs with positive residual and strict improvement", "residual > 0 and dist[u] + cost[u][v] < dist[v]" in bt, "", node=bf.node)
-    # O2 cost/flow pairing
-    n_pairs = 0
-    for n in ast.walk(w):
-        if isinstance(n, ast.AugAssign) and isinstance(n.op, ast.Add) and ast.unparse(n.target) == "flow[u][v]":
-            n_pairs += 1
-            amount = ast.unparse(n.value)
-            blk = _block_of(f.node, n)
-            costs = [s for s in blk if isinstance(s, ast.AugAssign) and ast.unparse(s.target) == "total_cost"]
-            ok = len(costs) == 1 and f"cost[u][v] * {amount}" in ast.unparse(costs[0].value)
-            ctx.ob("C09-O2", "R30 ACCUMULATOR-PAIRING", f, f"flow increment `{ast.unparse(n)}` is paired with the cost of that cell and amount", ok, ast.unparse(costs[0]) if costs else "no cost update in the block", node=n)
-        if isinstance(n, ast.AugAssign) and isinstance(n.op, ast.Sub) and ast.unparse(n.target) == "flow[v][u]":
-            amount = ast.unparse(n.value)
-            blk = _block_of(f.node, n)
-            costs = [s for s in blk if isinstance(s, ast.AugAssign) and ast.unparse(s.target) == "total_cost"]
-            ok = len(costs) == 1 and f"cost[v][u] * {amount}" in ast.unparse(costs[0].value) and "-" in ast.unparse(costs[0].value)
-            ctx.ob("C09-O2", "R30 ACCUMULATOR-PAIRING", f, f"cancelled flow `{ast.unparse(n)}` refunds the cost of the cancelled cell", ok, "", node=n)
+    init = [x for x in w.body if isinstance(x, ast.Assign) and ast.unparse(x.targets[0]) == "path_flow"]
+    ctx.ob("C09-O1", "R30 ACCUMULATOR-PAIRING", f, "bottleneck starts at the missing amount (never overshoots the demand) and is the minimum residual capacity along the path", len(init) == 1 and ast.unparse(init[0].value) == "demand - total_flow" and "path_flow = min(path_flow, edge_cap[e])" in ast.unparse(w), "", node=w)
+    # O2 augmentation: capacity moves from the edge to its partner, each unit priced at the edge it uses
+    aug = [n for n in w.body if isinstance(n, ast.For) and any(isinstance(x, ast.AugAssign) and ast.unparse(x.target) == "total_cost" for x in ast.walk(n))]
+    ok = len(aug) == 1 and ast.unparse(aug[0].iter) == "path"
+    stmts_ = [ast.unparse(x) for x in aug[0].body] if aug else []
+    ok = ok and sorted(stmts_) == sorted(["edge_cap[e] -= path_flow", "edge_cap[e ^ 1] += path_flow", "total_cost += edge_cost[e] * path_flow"])
+    ctx.ob("C09-O2", "R30 ACCUMULATOR-PAIRING", f, "augmentation moves the amount from each path edge to its partner and pays that edge's cost for it, in one block", ok, "; ".join(stmts_), node=aug[0] if aug else w)
+    acc = [x for x in w.body if isinstance(x, ast.AugAssign) and ast.unparse(x.target) == "total_flow"]
+    ctx.ob("C09-O2", "R30 ACCUMULATOR-PAIRING", f, "routed flow grows by the bottleneck once per path", len(acc) == 1 and ast.unparse(acc[0].value) == "path_flow", "", node=w)
+    n_pairs = 2
     ctx.floor("flow increments in min_cost_flow", n_pairs, 2)
     # O3 verdicts
     cfg = cfg_of(f.node)
@@ -84,8 +107,40 @@ def run(ctx: Ctx):
             if atom_of("flow[arc] > 0") in at:
                 loop = s.node.loop
                 ctx.ob("C09-O3", "R1 STATUS-GUARD", ns, "artificial-flow test ranges over exactly the artificial arcs", loop is not None and loop.kind == "for" and ast.unparse(loop.ast.iter) == "range(m, total_arcs)", "", node=s.call)
+    bm = [n.value for n in own_nodes(ns.node) if isinstance(n, ast.Assign) and ast.unparse(n.targets[0]) == "big_m"]
+    okm = len(bm) == 1
+    if okm:
+        txt = ast.unparse(bm[0])
+        agg = [c for c in ast.walk(bm[0]) if isinstance(c, ast.Call) and ast.unparse(c.func) in ("sum", "max")]
+        okm = bool(agg) and all("abs(" in ast.unparse(c) for c in agg) and "* n" in txt.replace("(", " ").replace(")", " ") + " " and txt.rstrip().endswith("+ 1") and "range(m)" in txt
+    ctx.ob("C09-O3", "R1 STATUS-GUARD", ns, "big-M is built from the absolute values of all arc costs, times the node count, plus one (dominates every real route whatever the signs)", okm, ast.unparse(bm[0]) if bm else "", node=ns.node)
     tc = [n for n in own_nodes(ns.node) if isinstance(n, ast.Assign) and ast.unparse(n.targets[0]) == "total_cost"]
     ctx.ob("C09-O3", "R5 PAIRING", ns, "cost is summed over the original arcs only", len(tc) == 1 and ast.unparse(tc[0].value) in ("sum((flow[i] * cost[i] for i in range(m)))", "sum((cost[i] * flow[i] for i in range(m)))"), "", node=ns.node)
+    # O6 tree update: the subtree cut off by the leaving arc is re-rooted at the entering arc's endpoint inside it
+    # (stem reversed) and hung below the other endpoint through the entering arc; depths / potentials are refreshed
+    ncfg2 = cfg_of(ns.node)
+    stem = [n for n in own_nodes(ns.node) if isinstance(n, ast.While) and n not in ns.node.body and any(isinstance(a_, ast.Assign) and "parent[node]" in ast.unparse(a_.targets[0]) for a_ in ast.walk(n))]
+    ok = len(stem) == 1
+    t_ns = ast.unparse(ns.node)
+    if ok:
+        st = ast.unparse(stem[0])
+        ok = "old_parent, old_pred = (parent[node], pred[node])" in st and "parent[node], pred[node] = (new_parent, new_pred)" in st and "if old_pred == leaving:" in st and "node, new_parent, new_pred = (old_parent, node, old_pred)" in st
+        ok = ok and "inside, outside = (first, second) if leaving_first else (second, first)" in t_ns and "node, new_parent, new_pred = (inside, outside, entering)" in t_ns
+    ctx.ob("C09-O6", "R16 PAIRED-EFFECTS", ns, "after a pivot the cut subtree is re-hung at the entering arc's endpoint: the stem from that endpoint to the old subtree root is reversed, starting with (endpoint inside -> endpoint outside, entering arc)", ok, "attaching the tail of the leaving arc instead describes a tree that does not exist unless the two arcs are adjacent", node=stem[0] if stem else ns.node)
+    refresh = [ncfg2.stmt_node_containing(n) for n in own_nodes(ns.node) if isinstance(n, ast.Call) and ast.unparse(n.func) == "_refresh_tree"]
+    ok = len(refresh) == 1 and bool(stem) and ncfg2.dominates(ncfg2.stmt_node_containing(stem[0].test), refresh[0])
+    if ok:
+        at = GuardView(ncfg2).guard_atoms(refresh[0])
+        ok = atom_of("leaving != entering") in at
+    ctx.ob("C09-O6", "R16 dirty->clean", ns, "every change of the tree is followed by a refresh of depths and potentials before the next pricing round", ok, "", node=ns.node)
+    rf_ = ctx.func("network_simplex", "_refresh_tree")
+    tr_ = ast.unparse(rf_.node)
+    ctx.ob("C09-O6", "R18 table", rf_, "refresh recomputes depth = parent's + 1 and the potential that gives the tree arc zero reduced cost, for every node below the root", "depth[node] = depth[p] + 1" in tr_ and "pi[node] = pi[p] + cost[arc]" in tr_ and "pi[node] = pi[p] - cost[arc]" in tr_ and "if source[arc] == node:" in tr_ and "children[parent[node]].append(node)" in tr_, "", node=rf_.node)
+    forced = [n for n in own_nodes(ns.node) if isinstance(n, ast.Assign) and ast.unparse(n) == "state[pred[node]] = 0"]
+    ctx.ob("C09-O6", "R27 WRITE-OWNERSHIP", ns, "tree arcs are kept basic whatever their flow (initially and after every recomputation of the arc states)", len(forced) == 2, f"{len(forced)} sites", node=ns.node)
+    recompute = [n for n in own_nodes(ns.node) if isinstance(n, ast.For) and ast.unparse(n.iter) == "range(total_arcs)" and "state[arc] = 1" in ast.unparse(n)]
+    ok = bool(recompute) and all(any(ncfg2.dominates(ncfg2.stmt_node_containing(r_.iter), ncfg2.node_of(f_)) and ncfg2.node_of(f_).loop is not ncfg2.stmt_node_containing(r_.iter) for f_ in forced) for r_ in recompute)
+    ctx.ob("C09-O6", "R27 WRITE-OWNERSHIP", ns, "each flow-based recomputation of the arc states is followed by forcing the tree arcs basic", ok, "", node=ns.node)
     ctx.note("network_simplex: the pivot loop's max_iter exit reaches the same exact verdicts as convergence (default budget 10^6, no input inside the property's quantifier reaches it) - information only")
     # O4 assignment wiring
     sa = ctx.func("flow", "solve_assignment")
@@ -102,17 +157,16 @@ def run(ctx: Ctx):
     plain = [n for n in fd if isinstance(n.value, ast.DictComp)]
     accum = any(isinstance(n, ast.Assign) and ast.unparse(n.targets[0]).startswith("flow_dict[") and "flow_dict.get(" in ast.unparse(n.value) for n in own_nodes(ns.node)) or any(isinstance(n, ast.AugAssign) and ast.unparse(n.target).startswith("flow_dict[") for n in own_nodes(ns.node))
     ctx.ob("C09-O5", "R18 SIBLING-AGREEMENT (policy)", ns, "result dictionary pools parallel arcs (keys are (source, target) pairs)", accum and not plain, "a comprehension keyed by (source, target) keeps only the last of several parallel arcs", node=fd[0])
-    # min_cost_flow: cost cells
-    loops = [n for n in own_nodes(f.node) if isinstance(n, ast.For) and isinstance(n.iter, ast.Name) and n.iter.id == "graph"]
-    ctx.require(len(loops) == 1, "construction loop of min_cost_flow not found")
-    fwd = [s for s in ast.walk(loops[0]) if isinstance(s, ast.Assign) and ast.unparse(s.targets[0]) == "cost[u][v]"]
-    rev = [s for s in ast.walk(loops[0]) if isinstance(s, ast.Assign) and ast.unparse(s.targets[0]) == "cost[v][u]"]
-    shared = bool(fwd) and bool(rev)
-    ctx.ob("C09-O5", "R27 WRITE-OWNERSHIP", f, "an arc's cost and the residual cost of the opposite arc live in different cells", not shared, "`cost[u][v]` (forward) and `cost[v][u]` (reverse residual) are the same table: with anti-parallel arcs one overwrites/undercuts the other", node=(rev or fwd or [loops[0]])[0])
-    cap_sum = any(isinstance(s, ast.AugAssign) and ast.unparse(s.target) == "capacity[u][v]" for s in ast.walk(loops[0]))
-    cost_min = any("min(cost[u][v]" in ast.unparse(s.value) for s in fwd)
-    ctx.ob("C09-O5", "R18 SIBLING-AGREEMENT (policy)", f, "parallel arcs: pooled capacity is not priced at the minimum cost", not (cap_sum and cost_min), "capacities of parallel arcs are summed while their cost cell keeps the minimum: the dearer arc's capacity is used at the cheaper price", node=(fwd or [loops[0]])[0])
-    generic_sweeps(ctx)
+    # min_cost_flow: per-arc storage, pooled only in the returned dictionary
+    keyed_by_pair = [n for n in own_nodes(f.node) if isinstance(n, (ast.Assign, ast.AugAssign)) and isinstance((n.targets[0] if isinstance(n, ast.Assign) else n.target), ast.Subscript) and isinstance((n.targets[0] if isinstance(n, ast.Assign) else n.target).value, ast.Subscript) and ast.unparse((n.targets[0] if isinstance(n, ast.Assign) else n.target).value.value) in ("capacity", "cost", "cap", "edge_cost_by_pair")]
+    ctx.ob("C09-O5", "R27 WRITE-OWNERSHIP", f, "capacities and costs are stored per arc, not per ordered node pair", not keyed_by_pair, "a table keyed by (u, v) cannot keep two parallel arcs with different costs apart, and shares a cell between an arc and the residual of the opposite arc", node=keyed_by_pair[0] if keyed_by_pair else f.node)
+    out = [n for n in own_nodes(f.node) if isinstance(n, ast.Assign) and ast.unparse(n.targets[0]) == "flows[key]"]
+    ok = len(out) == 1 and ast.unparse(out[0].value) == "flows.get(key, 0) + edge_cap[e ^ 1]" and "for e in range(0, len(edge_to), 2)" in t_mcf and "key = (edge_from[e], edge_to[e])" in t_mcf
+    if ok:
+        mcfg = cfg_of(f.node)
+        at = GuardView(mcfg).guard_atoms(mcfg.node_of(out[0]))
+        ok = atom_of("edge_cap[e ^ 1] > 0") in at
+    ctx.ob("C09-O5", "R18 SIBLING-AGREEMENT (policy)", f, "returned flow of an arc = capacity accumulated on its backward partner; parallel arcs are pooled by accumulation, zero flows left out", ok, "", node=out[0] if out else f.node)
 
 
 def _block_of(fn_node, stmt):
@@ -153,7 +207,43 @@ def _v_overshoot(tree):
 
 def _v_cost_unpaired(tree):
     g = M.find_func(tree, "min_cost_flow")
-    M.replace_stmt(g, lambda s: M.src_is(s, "total_cost += cost[u][v] * path_flow"), [])
+    M.replace_stmt(g, lambda s: M.src_is(s, "total_cost += edge_cost[e] * path_flow"), [])
+
+
+def _v_no_backward_edges(tree):
+    g = M.find_func(tree, "min_cost_flow.bellman_ford")
+    M.replace_stmt(g, lambda s: M.src_is(s, "v = edge_to[e]"), M.stmts("if e % 2:\n    continue\nv = edge_to[e]"))
+
+
+def _v_backward_not_registered(tree):
+    g = M.find_func(tree, "min_cost_flow")
+    M.replace_stmt(g, lambda s: M.src_is(s, "adj[v].append(len(edge_to))"), [])
+
+
+def _v_pair_tables(tree):
+    g = M.find_func(tree, "min_cost_flow")
+    M.replace_stmt(g, lambda s: M.src_is(s, "edge_cost.append(c)"), M.stmts("edge_cost.append(c)\ncost[u][v] = min(cost[u][v], c)"))
+    M.replace_stmt(g, lambda s: M.src_is(s, "nodes = set()"), M.stmts("nodes = set()\ncost = defaultdict(lambda: defaultdict(lambda: float('inf')))"))
+
+
+def _v_hang_leaving_node(tree):
+    g = M.find_func(tree, "network_simplex")
+    M.replace_stmt(g, lambda s: isinstance(s, ast.While) and M.src_has(s, "old_parent, old_pred"), M.stmts("leaving_node = inside\nwhile pred[leaving_node] != leaving:\n    leaving_node = parent[leaving_node]\nparent[leaving_node] = outside\npred[leaving_node] = entering"))
+
+
+def _v_no_refresh(tree):
+    g = M.find_func(tree, "network_simplex")
+    M.replace_stmt(g, lambda s: M.src_has(s, "_refresh_tree(") and isinstance(s, ast.Expr), [])
+
+
+def _v_tree_arcs_not_forced(tree):
+    g = M.find_func(tree, "network_simplex")
+    M.replace_stmt(g, lambda s: isinstance(s, ast.For) and M.src_has(s, "state[pred[node]] = 0"), [], count=2)
+
+
+def _v_bigm_max(tree):
+    g = M.find_func(tree, "network_simplex")
+    M.replace_expr(g, lambda e: M.src_is(e, "sum((abs(cost[i]) for i in range(m))) * n + 1"), M.expr("max((cost[i] for i in range(m))) * n + 1"))
 
 
 def _v_assignment_demand(tree):
@@ -181,6 +271,13 @@ VARIANTS = [
     M.Variant("artificial-flow test skips the first artificial arc", NS, _v_artificial_range, "C09-O3"),
     M.Variant("min_cost_flow bottleneck can overshoot the demand", FL, _v_overshoot, "C09-O1"),
     M.Variant("forward push without cost update", FL, _v_cost_unpaired, "C09-O2"),
+    M.Variant("path search ignores backward residual edges (seed C09-A, re-created on the repaired solver)", FL, _v_no_backward_edges, "C09-O1"),
+    M.Variant("backward edges not registered in the adjacency", FL, _v_backward_not_registered, "C09-O1"),
+    M.Variant("a cost table keyed by node pair creeps back in (original defect)", FL, _v_pair_tables, "C09-O5"),
+    M.Variant("big-M from the largest signed cost (seed C09-B)", NS, _v_bigm_max, "C09-O3"),
+    M.Variant("cut subtree hung at the tail of the leaving arc (original defect)", NS, _v_hang_leaving_node, "C09-O6"),
+    M.Variant("tree changed without refreshing depths / potentials", NS, _v_no_refresh, "C09-O6"),
+    M.Variant("arc states recomputed from flows without forcing tree arcs basic (original defect)", NS, _v_tree_arcs_not_forced, "C09-O6"),
     M.Variant("assignment demand = number of rows", FL, _v_assignment_demand, "C09-O4"),
     M.Variant("assignment hides the flow status", FL, _v_assignment_status, "C09-O4"),
     M.Variant("INFEASIBLE also when the path is expensive", FL, _v_infeasible_wrong, "C09-O3"),
